@@ -3,6 +3,7 @@ package rules
 import (
 	"fmt"
 	"go/token"
+	"sort"
 	"strings"
 
 	"gofasta-verif/core"
@@ -155,7 +156,7 @@ func genbankText(feats []gbFeature, ref string) []string {
 }
 
 func C14(c *core.Ctx) {
-	c.Explanation("C14: for eight feature layouts expressible in both formats (forward gene, overlapping genes, complement, join with segment lengths not divisible by three, join with lengths divisible by three, complement(join), a partial gene with codon_start=2 / phase 1, extra non-CDS features) RegionsFromGenbank and RegionsFromGFF are interpreted and must return the same regions (name, strand, start, stop, ordered position list, translation) and the same intergenic list, both equal to an independent reading of the location expression (join = concatenation, complement = reversal, codon_start/phase trims the 5' end once; later GFF rows' phases describe codons that straddle the join and remove nothing). For three layouts the same comparison is made end to end from file text: ReadGenBank and ReadGFF are interpreted against the scanner model on equivalent GenBank and GFF3 texts. Not decided: location syntaxes outside these shapes, '<'/'>' partial markers, multi-line locations.")
+	c.Explanation("C14: for eight feature layouts expressible in both formats (forward gene, overlapping genes, complement, join with segment lengths not divisible by three, join with lengths divisible by three, complement(join), a partial gene with codon_start=2 / phase 1, extra non-CDS features) RegionsFromGenbank and RegionsFromGFF are interpreted and must return the same regions (name, strand, start, stop, ordered position list, translation) and the same intergenic list, both equal to an independent reading of the location expression (join = concatenation, complement = reversal, codon_start/phase trims the 5' end once; later GFF rows' phases describe codons that straddle the join and remove nothing). For three layouts the same comparison is made end to end from file text: ReadGenBank and ReadGFF are interpreted against the scanner model on equivalent GenBank and GFF3 texts. The regions each constructor builds are also handed to GetVariantsPair for every single-base change of the reference under every layout (incl. two ribosomal-slippage joins that read one base twice and are listed in an order that differs from start order): the two lists of records must be equal as multisets. Not decided: location syntaxes outside these shapes, '<'/'>' partial markers, multi-line locations.")
 	checkReferenceRecordName(c, "R6")
 	var bad, badSpec []string
 	n := 0
@@ -221,6 +222,7 @@ func C14(c *core.Ctx) {
 	c.Sample(map[string]string{"rule": "R2", "genbank": "join(1..4,10..17) codon_start=1", "gff": "rows 1..4 phase 0, 10..17 phase 2", "specified_positions": "1 2 3 4 10 11 12 13 14 15 16 17"})
 	c14Text(c)
 	c14Translations(c)
+	c14Mutations(c)
 }
 
 // c14Text: end to end from file text.
@@ -375,4 +377,80 @@ func c14Translations(c *core.Ctx) {
 	c.Count("locations_evaluated", len(locs))
 	c.Ob("R4/genbank-location/positions-and-strand", len(bad) == 0, gp.Pos(), "%s", first(bad, 4))
 	_ = oracle.A
+}
+
+// c14Mutations: the regions each constructor builds from the two descriptions of one layout are handed to
+// GetVariantsPair for every single-base change of the reference; the two lists of records must be the same records
+// (compared as multisets: the property leaves open only the order of records that share a position, so equal
+// multisets are a necessary condition). The two constructors legitimately return the regions in different orders
+// (feature-table order, start order): nothing in the records may depend on that order.
+func c14Mutations(c *core.Ctx) {
+	rg := c.LookupFunc("pkg/variants", "RegionsFromGFF")
+	rb := c.LookupFunc("pkg/variants", "RegionsFromGenbank")
+	if rg == nil || rb == nil {
+		c.Und("R7/mutations-agree", token.NoPos, "UNRESOLVED region constructors")
+		return
+	}
+	tabs := extractTables(c, newEval(c), "R7")
+	if !tabs.OK {
+		return
+	}
+	var bad []string
+	n := 0
+	for _, ac := range annoCases(c) {
+		var forms [2][]eval.Value
+		ok := true
+		for i, form := range []string{"gff", "genbank"} {
+			ev := newEval(c)
+			var rv eval.Value
+			var err error
+			if form == "gff" {
+				rv, err = ev.CallFunc(rg, mkGFF(c, ac.gff), eval.S(annoRef))
+			} else {
+				rv, err = ev.CallFunc(rb, mkGenbank(c, ac.gb, annoRef), eval.K(int64(len(annoRef))))
+			}
+			t, isT := rv.(eval.Tuple)
+			if err != nil || !isT || len(t) != 3 {
+				c.Und("R7/mutations-agree/"+ac.name, rg.Pos(), "cannot build the regions (%s form): %v", form, err)
+				ok = false
+				break
+			}
+			if _, isErr := t[2].(eval.ErrVal); isErr {
+				ok = false // a rejected layout is reported by the region rules
+				break
+			}
+			forms[i] = []eval.Value{t[0], t[1]}
+		}
+		if !ok {
+			continue
+		}
+		for p := 0; p < len(annoRef); p++ {
+			for _, alt := range []byte("ACGT") {
+				if alt == annoRef[p] {
+					continue
+				}
+				q := []byte(annoRef)
+				q[p] = alt
+				n++
+				var lists [2][]string
+				for i := range forms {
+					got, err := evalVariantsPairWith(c, tabs, annoRef, string(q), nil, forms[i])
+					if err != nil {
+						bad = append(bad, fmt.Sprintf("%s: undecided: %v", ac.name, err))
+						continue
+					}
+					lists[i] = append([]string{}, got.all...)
+					sort.Strings(lists[i])
+				}
+				if strings.Join(lists[0], " ") != strings.Join(lists[1], " ") {
+					bad = append(bad, fmt.Sprintf("%s, %c%d%c: the GFF description gives %v, the GenBank description gives %v", ac.name, annoRef[p], p+1, alt, lists[0], lists[1]))
+				}
+			}
+		}
+		if len(bad) > 12 {
+			break
+		}
+	}
+	c.Count("mutation_lists_compared", n)
+	c.Ob("R7/mutations-agree/same-records-from-both-descriptions", len(bad) == 0, funcPos(c, "pkg/variants", "GetVariantsPair"), "%s", first(bad, 3))
 }
